@@ -48,13 +48,15 @@ TIERS = {
         enum_args=dict(min_n=1, max_n=3, min_reps=1, max_reps=2, max_groups=1,
                        max_len=2, timing=True)),
     'thorough': dict(
-        exhaustive=[dict(min_n=1, max_n=3, max_groups=2, max_reps=3,
+        exhaustive=[dict(min_n=1, max_n=3, max_groups=1, max_reps=3,
+                         timing=True),
+                    dict(min_n=1, max_n=3, max_groups=2, max_reps=2,
                          timing=True),
                     dict(min_n=4, max_n=4, max_groups=1, max_reps=2,
                          timing=False)],
-        sampled=[(4, 15000), (5, 10000)],
-        abstract_cap=20000, programs=400, stub_times=[1, 2, 3, 4, 5, 7, 9],
-        runmany=60, shards=14,
+        sampled=[(3, 2000), (4, 8000), (5, 6000)],
+        abstract_cap=12000, programs=150, stub_times=[1, 2, 3, 4, 5, 7, 9],
+        runmany=30, shards=14,
         enum_cfg='MCConcertinaEnum_thorough.cfg',
         enum_args=dict(min_n=1, max_n=3, min_reps=1, max_reps=2, max_groups=2,
                        max_len=3, timing=False)),
